@@ -19,6 +19,7 @@ def main():
     if a.replay:
         sys.exit(common.replay_file(a.replay))
     seed = int(os.environ.get("VERIF_SEED", "0") or 0)
+    os.environ["VERIF_TIER_ACTIVE"] = a.tier
     mod = importlib.import_module("checks.%s" % pid.lower())
     t0 = time.time()
     if a.selftest:
@@ -40,6 +41,7 @@ def selftest(pid, mod, seed):
     jobs = mod.selftests(seed)
     for j in jobs:
         j.module = j.module or mod.__name__
+        j.opts.pop("expect_cex", None)
     results = common.run_jobs(jobs)
     bad = 0
     for r in sorted(results, key=lambda r: r["name"]):
